@@ -401,6 +401,33 @@ func (p *Proxy) handleConnectRequest(ctx *Context, req *http.Request, session *S
 		return p.handle(ctx, conn, brw)
 	}
 
+	if ctx.SkippingRoundTrip() {
+		// A request modifier asked to skip the round trip (for instance the Via
+		// modifier found that the request loops): the target, or the downstream
+		// proxy, must not be contacted. Answer from here; there is no tunnel
+		// to serve afterwards, so the connection is closed.
+		log.Debugf("martian: skipping round trip for CONNECT: %s", req.URL.Host)
+		res := proxyutil.NewResponse(200, nil, req)
+
+		if err := p.resmod.ModifyResponse(res); err != nil {
+			log.Errorf("martian: error modifying CONNECT response: %v", err)
+			proxyutil.Warning(res.Header, err)
+		}
+		if session.Hijacked() {
+			log.Infof("martian: connection hijacked by response modifier")
+			return nil
+		}
+
+		res.Close = true
+		if err := res.Write(brw); err != nil {
+			log.Errorf("martian: got error while writing response back to client: %v", err)
+		}
+		if err := brw.Flush(); err != nil {
+			log.Errorf("martian: got error while flushing response back to client: %v", err)
+		}
+		return errClose
+	}
+
 	log.Debugf("martian: attempting to establish CONNECT tunnel: %s", req.URL.Host)
 	res, cconn, cerr := p.connect(req)
 	if cerr != nil {
